@@ -316,7 +316,7 @@ func (pr *poolRun) finish(out *sched.Outcome, err error) *poolRunResult {
 	pr.s.OpenAll()
 	pr.s.WaitDone(pr.sc.clients(), 2*time.Second)
 	done := make(chan struct{})
-	go func() { pr.tp.SetWorkerCount(0, true); close(done) }() // (JoinAll would spin for ever on a queue without workers)
+	go func() { pr.tp.SetWorkerCount(0, false); close(done) }() // (JoinAll would spin for ever on a queue without workers)
 	select {
 	case <-done:
 	case <-time.After(2 * time.Second):
@@ -733,7 +733,7 @@ func poolHammer(n int) (int, string) {
 	tp.SetWorkerCount(1, false)
 	defer func() {
 		done := make(chan struct{})
-		go func() { tp.SetWorkerCount(0, true); close(done) }()
+		go func() { tp.SetWorkerCount(0, false); close(done) }()
 		select {
 		case <-done:
 		case <-time.After(2 * time.Second):
